@@ -69,85 +69,111 @@ fn c03_class_ascii() {
 
 // ----------------------------------------------------------------------------------------------
 // K-score: calculate_score on a forward-greedy window   [bounded]
+//
+// Shape parameters (const generics, instantiated from contracts/catalogue.py):
+//   H = haystack length = end of the window, N = needle length, START = 0 | 1 (window start; 1 puts
+//   one symbolic character in front of the window), K = base configuration (0 DEFAULT, 1 match_paths()).
+// The haystack/needle bytes, ignore_case and normalize are fully symbolic.
+// Each postcondition clause is its own obligation (keeps each SAT query small).
 // ----------------------------------------------------------------------------------------------
+struct Inputs<const H: usize, const N: usize> {
+    hay: [u8; H],
+    needle: [u8; N],
+    cfg: Config,
+    kind: Bonuses,
+    pos: [u32; N],
+}
 
-fn score_contract_ascii<const H: usize, const N: usize>() {
+fn cs_inputs<const H: usize, const N: usize, const START: usize, const K: u8>() -> Inputs<H, N> {
     let hay: [u8; H] = kani::any();
     let needle: [u8; N] = kani::any();
     kani::assume(all_ascii(&hay));
-    let (cfg, kind) = any_config_no_prefix();
+    let (cfg, kind) = sym_config(K);
     kani::assume(needle_normalized_ascii(&needle, &cfg));
-    let start: usize = kani::any();
-    let end: usize = kani::any();
-    kani::assume(start < H && end <= H);
-    let pos = greedy_window::<AsciiChar, AsciiChar, N>(ascii(&hay), ascii(&needle), start, end, &cfg);
+    // precondition of calculate_score (derived from its call sites)
+    let pos = greedy_window::<AsciiChar, AsciiChar, N>(ascii(&hay), ascii(&needle), START, H, &cfg);
     kani::assume(pos.is_some());
-    let pos = pos.unwrap();
-    let mut m = small_matcher(cfg.clone(), 8);
-    let mut idx = prior_indices();
-    let old = idx.clone();
-    let s = m.calculate_score::<true, AsciiChar, AsciiChar>(ascii(&hay), ascii(&needle), start, end, &mut idx);
-    // witness W
-    assert!(idx.len() == old.len() + N, "exactly one index per needle character is appended");
-    let mut k = 0;
-    while k < old.len() {
-        assert!(idx[k] == old[k], "earlier content of the indices vector is untouched");
-        k += 1;
-    }
-    let new = &idx[old.len()..];
-    assert!(spec_witness(ascii(&hay), ascii(&needle), &cfg, new), "indices are a valid witness");
+    Inputs { hay, needle, cfg, kind, pos: pos.unwrap() }
+}
+
+/// W + score: the appended indices are the forward-greedy positions (a valid witness), earlier
+/// content is untouched, and the score is the fzf scheme evaluated on exactly those indices.
+pub fn cs_witness_and_score<const H: usize, const N: usize, const START: usize, const K: u8>() {
+    let i = cs_inputs::<H, N, START, K>();
+    let mut m = small_matcher(i.cfg.clone(), 8);
+    let p0: u32 = kani::any();
+    let mut idx = Vec::with_capacity(N + 2);
+    idx.push(p0);
+    let s = m.calculate_score::<true, AsciiChar, AsciiChar>(ascii(&i.hay), ascii(&i.needle), START, H, &mut idx);
+    assert!(idx.len() == 1 + N, "exactly one index per needle character is appended");
+    assert!(idx[0] == p0, "earlier content of the indices vector is untouched");
+    let mut got = [0u32; N];
     let mut k = 0;
     while k < N {
-        assert!(new[k] == pos[k], "indices are the forward-greedy positions of the window");
+        got[k] = idx[1 + k];
+        assert!(got[k] == i.pos[k], "indices are the forward-greedy positions of the window");
         k += 1;
     }
-    // fzf scheme on the reported alignment
-    assert!(s as u32 == spec_score(ascii(&hay), &cfg, kind, new), "score == fzf scheme on the reported alignment");
-    // the score-only variant returns the same value
-    let s2 = m.calculate_score::<false, AsciiChar, AsciiChar>(ascii(&hay), ascii(&needle), start, end, &mut Vec::new());
-    assert!(s == s2, "score-only and indices variants agree");
-    // prefix preference never lowers the score and adds at most the prefix bonus (C04)
-    m.config.prefer_prefix = true;
-    let s3 = m.calculate_score::<false, AsciiChar, AsciiChar>(ascii(&hay), ascii(&needle), start, end, &mut Vec::new());
-    assert!(s3 >= s && s3 <= s + 8, "prefer_prefix raises the score by 0..=8");
-    if start == 0 {
-        assert!(s3 == s + 8);
-    }
-    kani::cover!(new[N - 1] as usize > start + N - 1); // a gap occurred
+    assert!(spec_witness(ascii(&i.hay), ascii(&i.needle), &i.cfg, &got), "indices are a valid witness");
+    assert!(s as u32 == spec_score(ascii(&i.hay), &i.cfg, i.kind, &got), "score == fzf scheme on the reported alignment");
+    kani::cover!(true);
     std::mem::forget(m);
 }
 
-#[kani::proof]
-#[kani::unwind(8)]
-fn c03_calculate_score_ascii_6_3() {
-    score_contract_ascii::<6, 3>();
+/// the score-only variant returns the same value as the indices variant
+pub fn cs_variants_agree<const H: usize, const N: usize, const START: usize, const K: u8>() {
+    let i = cs_inputs::<H, N, START, K>();
+    let mut m = small_matcher(i.cfg.clone(), 8);
+    let mut idx = Vec::with_capacity(N + 2);
+    let s1 = m.calculate_score::<true, AsciiChar, AsciiChar>(ascii(&i.hay), ascii(&i.needle), START, H, &mut idx);
+    let s2 = m.calculate_score::<false, AsciiChar, AsciiChar>(ascii(&i.hay), ascii(&i.needle), START, H, &mut Vec::new());
+    assert!(s1 == s2, "score-only and indices variants agree");
+    kani::cover!(true);
+    std::mem::forget(m);
 }
 
-#[kani::proof]
-#[kani::unwind(8)]
-fn c03_calculate_score_ascii_5_2() {
-    score_contract_ascii::<5, 2>();
-}
-
-#[kani::proof]
-#[kani::unwind(9)]
-fn c03_calculate_score_ascii_7_3() {
-    score_contract_ascii::<7, 3>();
+/// C04: prefix preference never lowers the score and raises it by at most the prefix bonus (8)
+pub fn cs_prefer_prefix<const H: usize, const N: usize, const START: usize, const K: u8>() {
+    let i = cs_inputs::<H, N, START, K>();
+    let mut m = small_matcher(i.cfg.clone(), 8);
+    let s = m.calculate_score::<false, AsciiChar, AsciiChar>(ascii(&i.hay), ascii(&i.needle), START, H, &mut Vec::new());
+    m.config.prefer_prefix = true;
+    let sp = m.calculate_score::<false, AsciiChar, AsciiChar>(ascii(&i.hay), ascii(&i.needle), START, H, &mut Vec::new());
+    assert!(sp >= s && sp <= s + 8, "prefer_prefix raises the score by 0..=8");
+    if START == 0 {
+        assert!(sp == s + 8, "a match at the very start gets the whole prefix bonus");
+    }
+    kani::cover!(true);
+    std::mem::forget(m);
 }
 
 /// canary: must FAIL
-#[kani::proof]
-#[kani::unwind(7)]
-fn c03_score_canary() {
-    let hay: [u8; 4] = kani::any();
-    let needle: [u8; 2] = kani::any();
-    kani::assume(all_ascii(&hay));
-    let (cfg, _) = any_config_no_prefix();
-    kani::assume(needle_normalized_ascii(&needle, &cfg));
-    let pos = greedy_window::<AsciiChar, AsciiChar, 2>(ascii(&hay), ascii(&needle), 0, 4, &cfg);
-    kani::assume(pos.is_some());
-    let mut m = small_matcher(cfg.clone(), 8);
-    let s = m.calculate_score::<false, AsciiChar, AsciiChar>(ascii(&hay), ascii(&needle), 0, 4, &mut Vec::new());
+pub fn cs_canary() {
+    let i = cs_inputs::<4, 2, 0, 0>();
+    let mut m = small_matcher(i.cfg.clone(), 8);
+    let s = m.calculate_score::<false, AsciiChar, AsciiChar>(ascii(&i.hay), ascii(&i.needle), 0, 4, &mut Vec::new());
     std::mem::forget(m);
     assert!(s < 40);
+}
+
+// ----------------------------------------------------------------------------------------------
+// C10 [complete over the start position]: the prefix-preference term never overflows, wherever in
+// a (long) haystack the match starts.  One-character needle, so the scoring loop is empty and the
+// obligation isolates the arithmetic on `start`; the haystack is a prefix of a constant buffer.
+// ----------------------------------------------------------------------------------------------
+static LONG_HAY: [u8; 70_000] = [b'a'; 70_000];
+
+#[kani::proof]
+#[kani::unwind(7)]
+fn c10_prefix_term_no_overflow() {
+    let start: usize = kani::any();
+    kani::assume(start < 70_000);
+    let (mut cfg, _) = base_config(kani::any());
+    cfg.prefer_prefix = true;
+    let mut m = small_matcher(cfg, 8);
+    let needle = [AsciiChar(b'a')];
+    let s = m.calculate_score::<false, AsciiChar, AsciiChar>(ascii(&LONG_HAY), &needle, start, start + 1, &mut Vec::new());
+    assert!(s >= 16 && s <= 16 + 2 * 10 + 8, "score of a one-character match with prefix preference stays in 16..=44");
+    kani::cover!(start > 30_000);
+    std::mem::forget(m);
 }
